@@ -82,6 +82,8 @@ pub struct RunResult {
     pub file_ended_in_cond: bool,
     pub force_eof_closed_other_file: bool,
     pub backed_token_across_push: bool,
+    /// an \endinput was executed in a file that still has further lines (the stop is early)
+    pub endinput_before_last_line: bool,
 }
 
 pub struct InputMachine<'a> {
@@ -127,6 +129,7 @@ impl<'a> InputMachine<'a> {
                 file_ended_in_cond: false,
                 force_eof_closed_other_file: false,
                 backed_token_across_push: false,
+                endinput_before_last_line: false,
             },
             budget: 200_000,
         }
@@ -253,6 +256,9 @@ impl<'a> InputMachine<'a> {
         let pending_lists = self.stack[top_file + 1..].iter().any(|e| matches!(e, Entry::Toks { toks, pos } if *pos < toks.len()));
         let mut rest_yields_token = false;
         if let Entry::File { src, .. } = &self.stack[top_file] {
+            if src.has_more_lines() {
+                self.r.endinput_before_last_line = true;
+            }
             let mut copy = src.clone();
             while let Some(i) = copy.next_in_line(&self.cfg) {
                 if matches!(i, Item::Tok(_)) {
@@ -420,6 +426,12 @@ pub struct ReadMachine {
     pub unmatched_right_brace: bool,
     pub read_from_terminal: bool,
     pub read_appended_empty_line: bool,
+    /// a \read ended after one line that holds a complete `{...}` group, and the file has further lines
+    pub group_line_then_more_lines: bool,
+    /// a \read spanned several lines (group closed on a later line), and the file has further lines
+    pub multiline_group_then_more_lines: bool,
+    /// an unmatched `}` aborted a line that is not the last line of its file
+    pub unmatched_brace_then_more_lines: bool,
 }
 
 impl ReadMachine {
@@ -436,6 +448,9 @@ impl ReadMachine {
             unmatched_right_brace: false,
             read_from_terminal: false,
             read_appended_empty_line: false,
+            group_line_then_more_lines: false,
+            multiline_group_then_more_lines: false,
+            unmatched_brace_then_more_lines: false,
         }
     }
     /// scan_four_bit_int (§435): out of range is an error and 0 is used
@@ -482,6 +497,9 @@ impl ReadMachine {
         let mut toks: Vec<TokV> = vec![];
         let mut depth: i64 = 0; // align_state - 1000000
         let mut nlines = 0;
+        let mut from_file = false;
+        let mut more_lines = false;
+        let mut was_aborted = false;
         loop {
             // one line into a scanner of its own (state new_line)
             let open = m.map(|m| self.streams[m].is_some()).unwrap_or(false);
@@ -506,6 +524,8 @@ impl ReadMachine {
                 if s.src.has_more_lines() {
                     s.src.start_next_line(self.cfg.end_line_char);
                     line = s.src.clone();
+                    from_file = true;
+                    more_lines = s.src.has_more_lines();
                     if self.eof == Eof::ClosesWithLastLine && !s.src.has_more_lines() {
                         self.streams[m] = None;
                     }
@@ -548,11 +568,23 @@ impl ReadMachine {
                 toks.push(t);
             }
             if aborted || depth == 0 {
+                was_aborted = aborted;
                 break;
             }
             if self.eof == Eof::ClosesWithLastLine && open && m.map(|m| self.streams[m].is_none()).unwrap_or(false) {
                 // D14b variant: the stream was closed with its last line while a group is open
                 return ReadOutcome::FileEndedInGroup;
+            }
+        }
+        if from_file && more_lines {
+            if was_aborted {
+                self.unmatched_brace_then_more_lines = true;
+            } else if toks.iter().any(|t| matches!(t, TokV::Ch(_, scan::LEFT_BRACE))) {
+                if nlines == 1 {
+                    self.group_line_then_more_lines = true;
+                } else {
+                    self.multiline_group_then_more_lines = true;
+                }
             }
         }
         ReadOutcome::Toks(toks)
